@@ -597,8 +597,10 @@ func (d *DefaultServerDispatcher) messagePump() {
 				// First request for this client, ready to transmit
 				rdy = true
 			} else {
-				// If there is no active context, the client is ready to transmit
-				rdy = !clientCtx.isActive()
+				// If there is no active context, the client is ready to transmit. So it is if a context is active but
+				// no request is pending: the context then belongs to a request that was concluded already - or to an
+				// earlier connection of this client, when it reconnected before its removal was processed here.
+				rdy = !clientCtx.isActive() || !d.pendingRequestState.HasPendingRequest(clientID)
 			}
 		case ev, open := <-d.timerC:
 			// Timeout elapsed
